@@ -22,8 +22,11 @@ impl ReplayProtection {
     }
 
     pub fn already_received(&self, sequence: u64) -> bool {
-        if sequence + NETCODE_REPLAY_BUFFER_SIZE as u64 <= self.most_recent_sequence {
-            return true;
+        // Same test as `sequence + SIZE <= most_recent`, written so that it cannot overflow.
+        if let Some(oldest) = self.most_recent_sequence.checked_sub(NETCODE_REPLAY_BUFFER_SIZE as u64) {
+            if sequence <= oldest {
+                return true;
+            }
         }
 
         let index = sequence as usize % NETCODE_REPLAY_BUFFER_SIZE;
